@@ -472,7 +472,9 @@ class RealSys:
                 return 'raised:' + exc_name(e)
             if o == 'pause':
                 self.apppaused[(side, i)] = True
-            elif o == 'resume':
+            elif o in ('resume', 'close', 'abort'):
+                # close() and abort() discard what was received and not delivered: the application has given up the
+                # data, the excuse "it paused reading and has not resumed" ends here
                 self.apppaused[(side, i)] = False
             return 'ok'
         if cmd == 'wc':
